@@ -64,6 +64,10 @@ fixed("FX-C05-04", "C05", "13c8293", "a Decoder fed 3 bytes at a time accepted {
 fixed("FX-C10-04", "C10", "4f16a78", "32 goroutines encoding []T of a recursive T (or a struct with an interface member) for the first time under GC pressure: the programs of the goroutines that lost the cache publication were collected while running a nested program (return address held as uintptr only): 'encoder: opcode  has not been implemented', wrong output, 'found bad pointer in Go heap', SIGSEGV in vm.Run; present in the original tree")
 fixed("FX-C05-05", "C05", "189c5fc", "Valid(\"\\\"\\\\uZZZZ\\\"\") was true: the stream string decoder did not check the hex digits of \\u escapes (was KF-C05-08, KF-C18-V08, KF-C09-R04)")
 fixed("FX-C07-05", "C07", "8eeaac1", "{\"A\":null} into struct{A level; B [7]byte} (level: int8 with UnmarshalText) zeroed B: the TextUnmarshaler decoder stored a pointer-sized nil on null whatever the destination type (noticed by the seeded-change agent for C07, wave 4)")
+fixed("FX-C07-06", "C07", "92cf9c1", "newArrayDecoder read 8 bytes from a fresh zero value of the element type: out of bounds for [N]uint8 and other elements smaller than a pointer (-asan: use-after-poison in decoder.newArrayDecoder on the first decode into such an array; found by the thorough tier's asan variant)")
+fixed("FX-C16-02", "C16", "722e84b", "\"16.0\", \"1e2\", \"0.5\" into an integer stored the digit prefix: NewDecoder(\"16.0\").Decode(&uint8) = nil, 16; {\"1.5\":true} into map[int]bool stored key 1; {\"v\":\"1e2\"} with ,string stored 1; Unmarshal reported a syntax error at the leftover (was KF-C16-03 fraction/exponent classes, KF-C09-01, KF-C02-04, KF-C02-04b)")
+fixed("FX-C16-03", "C16", "26b55f9", "Unmarshal(\"-\", &int64) = nil, value 0 (was KF-C16-01)")
+fixed("FX-C16-04", "C16", "c9503d0", "{\"v\":\"1-\"} / {\"v\":\" -1\"} with ,string and map keys \"1-\", \" 1\" were accepted with the prefix value: the wrapped decoder ignored where the value decoder stopped (was KF-C16-03 map-key/string-tag non-digit class, KF-C02-08)")
 fixed("FX-C15-01", "C15", "57be1d1", "Decoder fed 5-byte chunks failed on fully \\u-escaped keys")
 
 fixed("FX-C06-04", "C06", "0243e9f", "Compact/Indent of a 100000-deep tower: fatal out of memory / stack overflow (no nesting limit)")
@@ -308,13 +312,11 @@ known("KF-C10-PROD", "C10", "race-detector", r"raceprod", r"race", r"(R|W):\S+ /
       "deliberate upstream design (lock-free fast path); a fix needs atomic slot loads/stores in both packages")
 
 # ------------------------------------------------------------------ C16
-known("KF-C16-01", "C16", "int-decode", None, r"accepts:bare-minus", r"int(8|16|32|64)?:(plain|pointer|map-key|string-tag|stream)",
-      'Unmarshal("-", &int64) = nil, value 0', "internal/decoder/int.go decodeByte/parseInt: a '-' with no digits parses as 0", "nothing else (exact class)", "small, but changes behaviour upstream tests may pin; left as finding")
 known("KF-C16-02", "C16", "int-decode", None, r"accepts:leading-zero", r"u?int(8|16|32|64|ptr)?:(plain|pointer|map-key|string-tag|stream)",
       'Unmarshal("01", &int) = nil, value 1; {"007":true} into map[uint8]bool', "internal/decoder/int.go, uint.go: digit loop accepts any run of digits", "nothing else (exact class)", "same lenient number scanner as KF-C05-01")
-known("KF-C16-03", "C16", "int-decode", None, r"accepts:(exponent|fraction|fraction\+exponent|non-digit|plus-sign)", r"u?int(8|16|32|64|ptr)?:(map-key|string-tag|stream)",
-      '{"1.5":true} into map[int]bool stores key 1; {"v":"1e2"} with ,string stores 1; NewDecoder("1-").Decode(&int) = 1', "internal/decoder/int.go, uint.go, wrapped_string.go, map.go: the integer scanner stops at the first non-digit and in these positions nobody looks at the rest",
-      "another non-integer literal accepted in map-key / ,string / stream position", "needs end-of-token validation in three wrappers")
+known("KF-C16-03", "C16", "int-decode", None, r"accepts:non-digit", r"u?int(8|16|32|64|ptr)?:stream",
+      'NewDecoder("1-").Decode(&int) = nil, 1 (the "-" stays in the stream)', "internal/decoder/int.go, uint.go decodeStreamByte stop at the first non-digit; Decoder.Decode does not look at what follows a top-level value (see KF-C05-11)",
+      "nothing else (exact class; the map-key, ,string, fraction and exponent forms were fixed in 722e84b and c9503d0)", "see KF-C05-11")
 
 # ------------------------------------------------------------------ C17
 known("KF-C17-01", "C17", "str-encode", r"DisableNormalizeUTF8", r"raw-u2028/9", r"(value|key):.*u2028/9.*",
@@ -340,13 +342,6 @@ known("KF-C02-01", "C02", D, None, r"err-vs-ok", r"go:syntax:strconv\.ParseFloat
 known("KF-C02-02", "C02", D, None, r"err-vs-ok", r"go:syntax:strconv\.ParseFloat: parsing : value out of range @ doc:[a-z-]+(\+prepop)? @ .*",
       'Unmarshal("1e400", &json.Number) fails (encoding/json keeps the literal)', "internal/decoder/number.go validates json.Number literals with strconv.ParseFloat and treats ErrRange as an error",
       "other out-of-float64-range literals into json.Number / UseNumber", "see KF-C05-12")
-known("KF-C02-04", "C02", D, r"Decoder.*", r"stream-differs-from-buffer", r"ok-vs-err:ref:type:number->u?int(8|16|32|64|ptr)? @ doc.* @ .*",
-      'NewDecoder("-327680e-1").Decode(&int) = nil (stores the digit prefix); Unmarshal reports the error', "see KF-C16-03 (stream position)", "see KF-C16-03", "see KF-C16-03")
-known("KF-C02-04b", "C02", D, r"Decoder.*", r"ok-vs-err", r"ref:type:number->u?int(8|16|32|64|ptr)? @ doc:[a-z-]+(\+prepop)? @ .*",
-      'NewDecoder("1.0").Decode(&uint8) = nil with UseNumber set as well', "see KF-C16-03 (stream position)", "see KF-C16-03", "see KF-C16-03")
-known("KF-C02-08", "C02", D, None, r"ok-vs-err", r"ref:string-tag-payload @ doc:[a-z-]+(\+prepop)? @ .*",
-      '{"Ab":" -1"} into struct{Name int16 `json:"Ab,string"`} is accepted (encoding/json: invalid use of ,string struct tag, trying to unmarshal " -1" into int16)', "internal/decoder/wrapped_string.go runs the ordinary value decoder on the payload, which skips leading whitespace (and stops at the first non-digit, see KF-C16-03)",
-      "other ,string payloads that are not exactly one literal of the member's type", "see KF-C16-03")
 known("KF-C02-06", "C02", D, None, r"field-selection:case-insensitive-match", r"(core|feature:.*)",
       '{"C":-1} does not reach the field tagged `json:"c,omitempty"` of an embedded struct; {"B":1} into EmbDeep is not reported as a type error (encoding/json matches case-insensitively)', "internal/decoder/struct.go: case-insensitive lookup is missing for fields promoted from embedded structs (see C15)",
       "any disagreement that disappears when keys are spelled exactly like their fields", "see C15")
@@ -385,8 +380,6 @@ for n, rx, same in (("01", "stream:nul-skipped", "KF-C05-05"),
                     ("10", "num:parsefloat-grammar", "KF-C05-01"), ("11", "str:raw-ctl", "KF-C05-02")):
     known("KF-C09-R" + n, "C09", SB, None, r"verdict:stream-ok-buffer-err", r"relax=" + re.escape(rx),
           "Decoder accepts an invalid text that Unmarshal rejects; the acceptance is explained by the stream lenience '%s' (%s)" % (rx, same), "see " + same, "see " + same, "see " + same)
-known("KF-C09-01", "C09", SB, r"u?int(8|16|32|64|ptr)?", r"verdict:stream-ok-buffer-err", r"valid-doc:[a-z-]+:buffer-error=invalid character after top-level value:u?int(8|16|32|64|ptr)?:number",
-      'NewDecoder("16.0").Decode(&uint8) = nil, 16 (Unmarshal: error)', "see KF-C16-03", "see KF-C16-03", "see KF-C16-03")
 known("KF-C09-03", "C09", "stream-seq", "InputOffset", r"offset-differs", r"(string|object|array):escapes=true",
       'after decoding "helloAb\\f" from a stream InputOffset is 10, not 11', "internal/decoder/string.go: escapes are resolved in place in the stream buffer and the removed bytes are not added to the offset",
       "other offset differences after documents containing escapes", "offset bookkeeping of in-place unescaping")
